@@ -26,8 +26,8 @@ TNext == /\ \/ l = 0 /\ l' \in {j \in 1..Len(Trace) : j % Chunk = 1}
 O  == Trace[IF l = 0 THEN 1 ELSE l]
 OC == [kind |-> O.kind, preload |-> O.preload, limit |-> O.limit, passes |-> O.passes, w |-> O.w, nc |-> O.nc,
        cut |-> O.cut]
-\* the run is cancelled by the driver (cut reached) in unbounded cells and in early-cut cells
-CutCell == O.cut > 0 \/ ~Bounded(OC)
+\* the run is cancelled by the driver (cut reached, or before Run for cut = -1) in unbounded cells and in cut cells
+CutCell == O.cut # 0 \/ ~Bounded(OC)
 Want    == IF CutCell THEN Stop(OC) ELSE Expected(OC)
 
 \* lines of cells that were not run (skipped after confirmed blocked cells of the same group) decide nothing
